@@ -6,6 +6,7 @@ CONSTANTS
   PropName = {"displayname", "color"}
   Value = {1, 2}
   MaxHist = 5
+  MaxInstr = 2
 INVARIANT TypeOK
 INVARIANT AllStoredValid
 INVARIANT UidUnique
